@@ -17,7 +17,7 @@ TREES = "typhon/trees.py"
 FILESET = "typhon/files/fileset.py"
 
 EXPECT = {"C03.pred": 2, "C03.partition": 2, "C03.descent": 12, "C03.early": 2, "C03.rows": 4,
-          "C03.empty": 1, "C03.scan": 6, "C03.match": 15, "C03.extent": 2, "C03.member": 1, "C03.api": 2}
+          "C03.empty": 2, "C03.scan": 6, "C03.match": 16, "C03.extent": 2, "C03.member": 1, "C03.api": 2}
 
 
 def OVspec(a, b):
@@ -454,6 +454,11 @@ class TreeFacts:
                 st = parent(st)
             n += 1
             kind_ret = self._return_kind(ret.value)
+            if len(chain) == 1 and chain[0][1] and str(norm(chain[0][0])) in ("%s is None" % nodep, "not %s" % nodep):
+                # the (sub)tree is empty: no stored row at all, the complete answer is the empty list
+                ctx.ob("IntervalTree.%s.early[no node]" % fname, kind_ret == "EMPTY", "if %s: return %s" % (norm(chain[0][0]), norm(ret.value) if ret.value is not None else None),
+                       "an empty tree (no node) answers with the empty list", node=ret, func=f)
+                continue
             guard = []
             for t_, pol_ in chain:
                 t_ = eflow.resolve(t_, at=t_, stop=(q, nodep))
@@ -732,8 +737,31 @@ class TreeFacts:
                        node=st, func=f)
                 if k is None:
                     raise AnalysisError("unrecognised emptiness test in _build_tree: %s" % norm(st.test))
-                return
-        raise AnalysisError("_build_tree has no base case")
+                break
+        else:
+            raise AnalysisError("_build_tree has no base case")
+        # the empty SET of intervals: the reductions over the whole array (np.min / np.max) raise on size 0 - a size guard has to
+        # come first, and the queries have to cope with the missing root
+        fi = self.f_init
+        iflow = Flow(fi)
+        P0 = fi.params[1]
+        reds = [c_ for c_ in calls_in(fi.node, ("min", "max", "amin", "amax")) if c_.args and str(norm(c_.args[0])) == P0 or
+                (isinstance(c_.func, ast.Attribute) and str(norm(c_.func.value)) == P0 and c_.func.attr in ("min", "max"))]
+        guards = [st for st in iflow.stmts if isinstance(st, ast.If) and emptiness_test_kind(st.test, about=P0) == "size" and any(isinstance(x, ast.Return) for x in st.body)]
+        okg = True
+        if reds:
+            okg = bool(guards) and all(iflow.cfg.dominated_by(n_, set(iflow.cfg.nodes(guards[0]))) for c_ in reds for n_ in iflow.cfg.nodes(enclosing_stmt(c_)))
+        root_none = True
+        for fname in ("_query", "_query_point"):
+            qf = ctx.func(TREES, "IntervalTree." + fname)
+            nodep = qf.params[2]
+            first = qf.body[0] if qf.body else None
+            root_none = root_none and isinstance(first, ast.If) and str(norm(first.test)) in ("%s is None" % nodep, "not %s" % nodep) \
+                and any(isinstance(x, ast.Return) for x in first.body)
+        ctx.ob("IntervalTree.__init__.empty_set", okg and (root_none or not guards), "size guard before %s: %s; queries accept a missing root: %s" % (
+            [str(norm(c_))[:30] for c_ in reds], [str(norm(g_.test)) for g_ in guards] or "none", root_none),
+            "IntervalTree([]) is the empty set of intervals: it can be built (np.min of a zero-size array raises) and every query answers with nothing",
+            node=guards[0] if guards else fi.node, func=fi, witness=None if okg and (root_none or not guards) else {"IntervalTree([])": "ValueError: zero-size array to reduction operation minimum"})
 
     # -- C03.member / api --------------------------------------------------------------
     def rule_member(self):
@@ -1084,12 +1112,25 @@ def rule_match(ctx):
         kexpr = shifts[0][3].value
         kres = flow.resolve(kexpr, at=shifts[0][3])
         # k is the whole max_interval in the unit of the integer times (seconds): total_seconds()
-        txt = norm(kres)
-        whole = "total_seconds" in txt and p_mi in txt and ".seconds" not in txt.replace("total_seconds", "") \
-            and ".days" not in txt and ".microseconds" not in txt
-        ctx.ob("FileSet.match.widen.amount", whole, "k = %s" % txt,
-               "the complete max_interval in seconds (timedelta.total_seconds(); .seconds drops whole days)",
-               node=shifts[0][3], func=f)
+        txt = str(norm(kres))
+        # the unit of the integer times: the M8[<unit>] both time arrays are cast to
+        units = []
+        for c_ in calls_in(f.node, "astype"):
+            if c_.args and isinstance(c_.args[0], ast.Constant) and isinstance(c_.args[0].value, str) and c_.args[0].value.startswith("M8["):
+                units.append(c_.args[0].value[3:-1])
+        if len(units) != 2:
+            raise AnalysisError("match(): the casts of the two coverage arrays to M8[<unit>] were not found (%s)" % units)
+        flat = txt.replace(" ", "")
+        per_us = "//timedelta(microseconds=1)" in flat or "/timedelta(microseconds=1)" in flat
+        whole_s = "total_seconds" in txt and ".seconds" not in txt.replace("total_seconds", "") and ".days" not in txt and ".microseconds" not in txt
+        complete = p_mi in txt and (per_us or whole_s) and ".seconds" not in txt.replace("total_seconds", "").replace("microseconds=", "") and ".days" not in txt
+        unit_ok = units[0] == units[1] and ((units[0] == "us" and per_us) or (units[0] == "s" and whole_s and not per_us))
+        ctx.ob("FileSet.match.widen.amount", complete and unit_ok, "times in M8[%s] / M8[%s]; k = %s" % (units[0], units[1], txt),
+               "the complete max_interval (days included) expressed in the unit of the integer times", node=shifts[0][3], func=f)
+        ctx.ob("FileSet.match.resolution", units == ["us", "us"], "coverages compared as integers of M8[%s], M8[%s]" % tuple(units),
+               "microseconds, the resolution of the files' datetime stamps: whole seconds move the end points of files with {millisecond} fields "
+               "(disjoint files 0.0-0.4 s and 0.6-1.0 s were matched)", node=shifts[0][3], func=f,
+               witness=None if units == ["us", "us"] else {"primary": "[0.0 s, 0.4 s]", "secondary": "[0.6 s, 1.0 s]", "matched": True})
         t2 = shifts[0][2]
         widened_under = None
         for a in [shifts[0][3]]:
